@@ -63,6 +63,10 @@ class HarnessBase:
     def boundary_excuse(self, sym_out, conc_out):
         return False
 
+    def relax_path(self, path):
+        """optional sound weakening of the path condition used when deciding obligations (default: none)"""
+        return path
+
 
 # ----------------------------------------------------------------------------
 def raised_by_harness(e):
@@ -83,7 +87,7 @@ def flatten(x, prefix='', out=None):
         out = {}
     if isinstance(x, dict):
         for k, v in x.items():
-            if isinstance(k, str) and k.startswith('_'):
+            if isinstance(k, str) and (k.startswith('_') or k == 'msg' or k.endswith('_msg')):
                 continue        # concrete-only observations (file export etc.)
             flatten(v, '%s.%s' % (prefix, k) if prefix else str(k), out)
     elif isinstance(x, (list, tuple)):
@@ -254,7 +258,10 @@ def process(h, want_functions=False):
         except Unsupported as e:
             R['inconclusive'].append('oracle: %s' % e)
             continue
+        full_path = res.path
+        res.path = h.relax_path(res.path)
         R['obligations'] += len(obs)
+        sym_families = set(ob.family for ob in obs)
         # triggers (vacuity guard)
         for ob in obs:
             if ob.trigger is not None and ob.family in h.required_triggers \
@@ -295,6 +302,7 @@ def process(h, want_functions=False):
                         candidates.append((res, ob, model_to_floats(eng, m2), False))
                     else:
                         R['inconclusive'].append('solver unknown on %s' % ob.name)
+        res.path = full_path
         # trace validation against the implementation
         if nval < h.validate_max and ridx % stride == 0:
             nval += 1
@@ -309,6 +317,12 @@ def process(h, want_functions=False):
                     R['validated'] += 1
                     # the oracle is also evaluated on the concrete run (covers concrete-only observations)
                     cfailed, cdetail = check_ground(h, cout)
+                    try:
+                        for cob in h.obligations(cout):
+                            if cob.trigger is None and cob.family not in sym_families:
+                                R['triggers'][cob.family] = R['triggers'].get(cob.family, 0) + 1
+                    except Unsupported:
+                        pass
                     if cfailed:
                         cn = [f if isinstance(f, str) else f.name for f in cfailed]
                         f0 = cfailed[0]
